@@ -83,7 +83,9 @@ def timed_history(r, timeout, ties=False, flow=True):
                     t += dt
                     evs.append((r.choice(["p", "w", "w"]), t))
     # final idle period
-    t += r.choice([0, max(T - 1, 0), T + 1, 5 * T]) if not ties else r.choice([T, 0])
+    # (asyncio compares deadlines with time() + 1e-9 in floating point: virtual times stay well below 2**24 s)
+    long_idle = [241 * T, 1000 * T + 1] if T <= 600 else []
+    t += r.choice([0, max(T - 1, 0), T + 1, 5 * T] + long_idle) if not ties else r.choice([T, 0])
     evs.append(("i", t))
     return evs, big
 
@@ -263,7 +265,10 @@ def run(ctx):
         fmt = r.choice(["astm", "lis2a"])
         hists = [timed_history(r, timeout)[0] for _ in range(k)]
         merged = sorted(((e[1], c, i, e) for c, h in enumerate(hists) for i, e in enumerate(h)), key=lambda x: (x[0], x[1], x[2]))
-        conns = [impl.Conn(fmt=fmt, timeout=timeout, peer=("10.0.0.%d" % (c + 1), 4000 + c)) for c in range(k)]
+        # (connections of one host - several analysers behind one serial converter - or of different hosts)
+        same_host = r.random() < 0.5
+        conns = [impl.Conn(fmt=fmt, timeout=timeout, peer=("10.0.0.%d" % (1 if same_host else c + 1), 4000 + c)) for c in range(k)]
+        mc.count("same host" if same_host else "different hosts")
         refs = [RefTimer(fmt, timeout) for _ in range(k)]
         case = {"format": fmt, "timeout": timeout, "connections": [[tev_hex(e) for e in h] for h in hists]}
         mc.case(case, nontrivial=True)
